@@ -2,6 +2,7 @@
 from ..rules import chart_rules as R
 from ..rules import proj_rules as PR
 from ..rules import shape_rules as SH
+from ..rules import sibling_rules as SI
 from ..rules.common import u1, n1
 
 P = R.PROJ
@@ -21,6 +22,7 @@ def run(ctx):
     ctx.do(n1, ["geometry_tools/projective.py"])
     ctx.do(PR.rule_bm1)
     ctx.do(SH.rule_sh4)
+    ctx.do(SI.rule_eig1)
     ctx.do(u1, ENTRIES, min_functions=15)
     ctx.r.assume("affine maps, translations, intersections and eigenvectors "
                  "are numerical clauses and not decided")
